@@ -44,7 +44,7 @@ var clockOffsets = []time.Duration{0, 1, 24 * time.Hour, -time.Hour, 365 * 24 * 
 	(363*24+20)*time.Hour + 55*time.Minute + 54*time.Second + 999*time.Millisecond, // Dec 31 23:59:59.999
 	-(2*24 + 3) * time.Hour,                                               // previous year
 }
-var historyNames = []string{"fresh", "repeat-in-process", "after-other-spec", "separate-process"}
+var historyNames = []string{"fresh", "repeat-in-process", "after-other-spec", "separate-process", "dir-mode-after-sibling"}
 
 func newC12(job *Job, res *Result) *c12env {
 	e := &c12env{job: job, res: res, root: job.Scratch, base: map[string]*baseline{}, sites: map[int]SiteInfo{}, distinct: map[uint64]bool{}}
@@ -145,8 +145,11 @@ func (e *c12env) execC12(inv gencore.Invocation, other *gencore.Invocation, t *t
 			}
 		}
 	}
-	o.h = t.Choose(4, "history")
+	o.h = t.Choose(5, "history")
 	if o.h == 3 && e.job.CLI == "" {
+		o.h = 0
+	}
+	if o.h == 4 && (other == nil || inv.HasConfig != inv.HasConfig) {
 		o.h = 0
 	}
 	o.toff = clockOffsets[t.Choose(len(clockOffsets), "clock")]
@@ -187,7 +190,19 @@ func (e *c12env) execC12(inv gencore.Invocation, other *gencore.Invocation, t *t
 			os.RemoveAll(filepath.Dir(pin))
 		}
 	}
-	if o.h == 3 {
+	if o.h == 4 {
+		// -dir mode: a sibling sub-directory (the other spec, same flags) is generated first in the same call
+		sib := *other
+		sib.GenClient, sib.APIHandler, sib.DoNotEdit, sib.Package, sib.BasePath, sib.SpecHandler = inv.GenClient, inv.APIHandler, inv.DoNotEdit, inv.Package, inv.BasePath, inv.SpecHandler
+		rootDir := filepath.Join(filepath.Dir(in), "tree")
+		r = gencore.RunDirInProcess([]gencore.Invocation{sib, inv}, []string{"a_sibling", "b_target"}, rootDir, gencore.Sched{Tape: t, Active: active, ClockOffset: o.toff, Ambient: o.ambient, Stall: o.stall}, e.root)
+		out = filepath.Join(rootDir, "b_target", "out")
+		if r.Err != "" && !strings.Contains(r.Err, "b_target") {
+			// the sibling failed to generate: -dir mode stops there; nothing to compare for the target
+			o.skipped = "dir_mode_sibling_failed"
+			return o
+		}
+	} else if o.h == 3 {
 		vals := make([]uint32, 48)
 		for i := range vals {
 			vals[i] = uint32(t.Choose(5040, "cli-order"))
